@@ -524,9 +524,20 @@ def r_union_exh_raise(ctx, bases=("Constraint",)):
 
 
 def r_loopvar(ctx, bases=("Constraint", "Indicator", "Objective"), solver=False):
-    """a term emitted after a loop must not be built from the loop's own variables"""
+    """a term emitted after a loop must not be built from the loop's own variables.  Findings are keyed by the loop that is
+    escaped (its iterable), so that a second escape in the same constructor is a new finding"""
     n = 0
     found = {}
+
+    def escaped(x):
+        return x and x[0] == "loopout" and x[3] == ("k", "<unbound>")
+
+    def over_of(lp):
+        """the escaped loop, named by the tail of its iterable (independent of loop numbering and of the receiver's spelling)"""
+        txt = show(norm(lp[3]))
+        parts = txt.split(".")
+        return ".".join(parts[-2:]) if len(parts) >= 2 else txt
+
     for base in bases:
         for c in ctx.project.subclasses(base):
             runs = runs_of(ctx, Entry("init", cls=c.name, opaque=OPAQUE))
@@ -534,10 +545,11 @@ def r_loopvar(ctx, bases=("Constraint", "Indicator", "Objective"), solver=False)
                 n += 1
                 for e in run.emissions:
                     for x in subterms(e.term):
-                        if x and x[0] == "loopout" and x[3] == ("k", "<unbound>"):
+                        if escaped(x):
                             lp = x[2]
                             if lp not in e.loops:
-                                found.setdefault((e.site.func if e.site.func.endswith("__init__") else f"{c.name}.__init__", x[1]), loc(e))
+                                where = e.site.func if e.site.func.endswith("__init__") else f"{c.name}.__init__"
+                                found.setdefault((where, over_of(lp)[:100]), (set(), loc(e)))[0].add(x[1])
     for m in (("build_equivalent_weighted_objective",) if solver else ()):
         runs = runs_of(ctx, Entry("method", cls="SchedulingSolver", name=m, opaque=OPAQUE))
         for run in runs:
@@ -545,15 +557,14 @@ def r_loopvar(ctx, bases=("Constraint", "Indicator", "Objective"), solver=False)
             for ev in run.events_of("new"):
                 for k, v in ev.data["kwargs"]:
                     for x in subterms(v):
-                        if x and x[0] == "loopout" and x[3] == ("k", "<unbound>"):
-                            found.setdefault((f"SchedulingSolver.{m}", x[1]), f"processscheduler/solver.py:{ev.site.lineno}")
-    by_where = {}
-    for (where, var), location in sorted(found.items()):
-        by_where.setdefault(where, ([], location))[0].append(var)
-    for where, (vars_, location) in sorted(by_where.items()):
-        ctx.violation("R-LOOPVAR", where, "loop variable used after its loop in an emitted term",
-                      f"{', '.join('`' + v + '`' for v in vars_)} {'is' if len(vars_) == 1 else 'are'} only bound as loop variable(s) and "
-                      f"read after the loop to build an emitted term: the term speaks about the last element only", location)
+                        if escaped(x):
+                            found.setdefault((f"SchedulingSolver.{m}", over_of(x[2])[:100]),
+                                             (set(), f"processscheduler/solver.py:{ev.site.lineno}"))[0].add(x[1])
+    for (where, over), (vars_, location) in sorted(found.items()):
+        vs = sorted(vars_)
+        ctx.violation("R-LOOPVAR", where, f"value bound inside the loop over {over} used after that loop in an emitted term",
+                      f"{', '.join('`' + v + '`' for v in vs)} {'is' if len(vs) == 1 else 'are'} only bound inside the loop over {over} "
+                      f"and read after it to build an emitted term: the term speaks about the last element only", location)
     ctx.floor("R-LOOPVAR", "paths scanned", n, 200 if bases else 1)
     if not found:
         ctx.ok("R-LOOPVAR", f"no emitted term uses an escaped loop variable ({n} paths)")
